@@ -52,8 +52,8 @@ pub fn run(out: &mut Out, seed: u64, tier: &str) {
         let n = 4 + rng.below(if tier == "thorough" { 37 } else { 20 });
         let mut bonds: Vec<(usize, usize, f64)> = vec![];
         match r % 5 {
-            0 => { let p = rng.range(0.05, 0.5); for i in 0..n { for j in (i + 1)..n { if rng.chance(p) { bonds.push((i, j, 1.0)); } } } }
-            1 => { for j in 1..n { bonds.push((0, j, 1.0)); } }
+            0 => { let p = if n > 10 { rng.range(1.0, 4.5) / n as f64 } else { rng.range(0.05, 0.5) }; for i in 0..n { for j in (i + 1)..n { if rng.chance(p) { bonds.push((i, j, 1.0)); } } } }
+            1 => { for j in 1..n.min(13) { bonds.push((0, j, 1.0)); } }
             2 => { for i in 0..n { bonds.push((i, (i + 1) % n, 1.5)); } if n > 6 { bonds.push((0, n / 2, 1.0)); } }
             3 => { for i in 1..n { bonds.push((rng.below(i), i, *rng.pick(&[1.0, 2.0, 3.0]))); } }
             _ => { let h = n / 2; for i in 1..h { bonds.push((i - 1, i, 1.0)); } for i in (h + 1)..n { bonds.push((i, i - 1, 2.0)); }
